@@ -118,8 +118,15 @@ func c04ShowPath(p []c04Seg) string {
 	return strings.Join(parts, ".")
 }
 
+// one path in c04UnsafeOneIn ignores the shape of dest (lowered while generating flag mixtures,
+// where a single error anywhere turns the whole case into "error")
+var c04UnsafeOneIn = 5
+
 func c04GenPath(r *rand.Rand, dest vtree) []c04Seg {
 	n := 1 + r.Intn(3)
+	// mostly paths that fit what dest already has (a key below a scalar, or an index on a
+	// non-list, is an error in strvals); one in five ignores the shape on purpose
+	safe := r.Intn(c04UnsafeOneIn) > 0
 	var p []c04Seg
 	var cur interface{} = dest
 	for i := 0; i < n; i++ {
@@ -135,17 +142,29 @@ func c04GenPath(r *rand.Rand, dest vtree) []c04Seg {
 			k = vtKeys[r.Intn(len(vtKeys))]
 		}
 		s := c04Seg{Key: k}
-		if r.Intn(5) == 0 {
-			s.Idx = append(s.Idx, r.Intn(3))
-			if r.Intn(5) == 0 {
+		var nxt interface{}
+		exists := false
+		if m != nil {
+			nxt, exists = m[k]
+		}
+		l, isList := nxt.([]interface{})
+		if (r.Intn(5) == 0 && (!safe || !exists)) || (isList && r.Intn(2) == 0) {
+			ix := r.Intn(3)
+			s.Idx = append(s.Idx, ix)
+			nxt, exists = nil, false
+			if isList && ix < len(l) {
+				nxt, exists = l[ix], true
+			}
+			if _, inner := nxt.([]interface{}); (inner && r.Intn(2) == 0) || (!exists && r.Intn(6) == 0) {
 				s.Idx = append(s.Idx, r.Intn(2))
+				nxt, exists = nil, false
 			}
 		}
 		p = append(p, s)
-		cur = nil
-		if m != nil {
-			cur = m[k]
+		if _, isTable := nxt.(vtree); safe && exists && !isTable {
+			break // anything below a non-table would be an error
 		}
+		cur = nxt
 	}
 	return p
 }
@@ -258,13 +277,16 @@ func c04GenMalformed(r *rand.Rand) string {
 	return b.String()
 }
 
-var c04Hand = []string{"", "a", "a=", "a.", "a.b", "a.b=", ".a=1", "a.=1", "a[0]", "a[0].", "a[0]=", "a[0][0].", "a[", "a[x]=1", "a[-1]=1",
+var c04Hand = []string{"", "a", "a=", "a.", "a.b", "a.b=", ".a=1", "a.=1", "a[0]", "a[0].", "a[0]=", "a[0][0].", "a[0].d=", "a[1][0].d=", "a[0].d.e=", "a[2].b=", "a[", "a[x]=1", "a[-1]=1",
 	"a[300]=1", "a[65537]=1", "a=1,", "a=1,b", ",", "=", "=x", "a=,b=2", "a={", "a={x", "a={x}y", "a={x},b=1", "a={x}b=1", "a=\\", "a\\", "a[0]x=1",
 	"a[0]=1,a[2]=3", "a[1].b=1,a[1].c=2", "a[0][1]=x", "a.b.c.d.e.f.g.h.i.j.k.l.m.n.o.p.q.r.s.t.u.v.w.x.y.z.a.b.c.d.e=1",
 	"a.b.c.d.e.f.g.h.i.j.k.l.m.n.o.p.q.r.s.t.u.v.w.x.y.z.a.b.c.d=1", "a=1,a=2", "a.b=1,a=2", "a=2,a.b=1", "a=null", "a.b=null"}
 
 func c04GenJSONExpr(r *rand.Rand, dest vtree) string {
-	vals := []string{`1`, `"s"`, `null`, `true`, `[1,2]`, `{"x":1}`, `{"x":{"y":null}}`, ` 2`, `"a,b"`, `[{"k":"v"}]`, ``, ` `, `tru`, `{`, `1.5`, `"é"`}
+	vals := []string{`1`, `"s"`, `null`, `true`, `[1,2]`, `{"x":1}`, `{"x":{"y":null}}`, ` 2`, `"a,b"`, `[{"k":"v"}]`, ``, ` `, `1.5`, `"é"`, `-3`, `[]`, `{}`, `"t"`, `false`, `[null]`}
+	if r.Intn(c04UnsafeOneIn) == 0 {
+		vals = []string{`tru`, `{`, `[1,`, `"open`, `nul`}
+	}
 	n := 1 + r.Intn(2)
 	var parts []string
 	for i := 0; i < n; i++ {
@@ -354,8 +376,14 @@ func c04GenOpts(r *rand.Rand, base vtree) c04Case {
 	stamp := 0
 	next := func() string { stamp++; return fmt.Sprintf("v%d", stamp) }
 	// a small pool of plain paths shared by all sources
-	pool := [][]string{{"a"}, {"b"}, {"a", "b"}, {"a", "c"}, {"c", "d", "e"}, {"c", "d"}, {"e"}}
-	pick := func() []string { return pool[r.Intn(len(pool))] }
+	pool := [][]string{{"a", "x"}, {"b"}, {"a", "y"}, {"c", "d", "e"}, {"c", "d", "f"}, {"e"}, {"g", "h"}}
+	clash := [][]string{{"a"}, {"c", "d"}, {"b", "z"}}
+	pick := func() []string {
+		if r.Intn(12) == 0 {
+			return clash[r.Intn(len(clash))]
+		}
+		return pool[r.Intn(len(pool))]
+	}
 	mk := func(p []string, v interface{}) vtree {
 		t := vtree{}
 		cur := t
@@ -425,6 +453,8 @@ func c04GenOpts(r *rand.Rand, base vtree) c04Case {
 		return c04Case{Kind: "opts", Opts: o, Tag: "opts-simple"}
 	}
 	// rich: generated trees as files, grammar expressions for every family
+	c04UnsafeOneIn = 25
+	defer func() { c04UnsafeOneIn = 5 }()
 	cur := vtree{}
 	for i := r.Intn(3); i > 0; i-- {
 		f := vtMutate(r, base, 3)
